@@ -10,8 +10,31 @@ Theorem C07_size_bound : forall (wrap:Z -> Z), (forall s, 0 <= s -> wrap s <= s 
   forall ty st n tiny const best_speed k thr, ty_ok ty -> (st = 4 \/ st = 8) -> 0 <= n -> 0 <= k ->
   thr <= raw_stream ty st n + 8 ->
   out_size wrap ty st n tiny const best_speed k thr <= raw ty n + 128 + raw ty n / 1000.
-Proof. exact out_size_bound. Qed.
+Proof. intros wrap H. apply out_size_bound. intros s Hs. apply wrap_3277_implies_3000; auto. Qed.
 Print Assumptions C07_size_bound.
+
+(* the same under the weaker hypothesis that IS met by both back ends' documented worst cases for every length *)
+Theorem C07_size_bound_weaker_hypothesis : forall (wrap:Z -> Z), (forall s, 0 <= s -> wrap s <= s + s / 3000 + 40) ->
+  forall ty st n tiny const best_speed k thr, ty_ok ty -> (st = 4 \/ st = 8) -> 0 <= n -> 0 <= k ->
+  thr <= raw_stream ty st n + 8 ->
+  out_size wrap ty st n tiny const best_speed k thr <= raw ty n + 128 + raw ty n / 1000.
+Proof. exact out_size_bound. Qed.
+Print Assumptions C07_size_bound_weaker_hypothesis.
+
+(* no numeric hypothesis left: whatever either back end returns within its documented bound (zstd's raw-block worst case, zlib's
+   deflateBound - also the size of the buffer zlib_compress5 allocates) keeps the stream within raw + 128 + 0.1 % *)
+Theorem C07_size_bound_backends : forall (wrap:Z -> Z),
+  (forall s, 0 <= s -> wrap s <= zstd_worst s \/ wrap s <= deflate_bound s) ->
+  forall ty st n tiny const best_speed k thr, ty_ok ty -> (st = 4 \/ st = 8) -> 0 <= n -> 0 <= k ->
+  thr <= raw_stream ty st n + 8 ->
+  out_size wrap ty st n tiny const best_speed k thr <= raw ty n + 128 + raw ty n / 1000.
+Proof. exact out_size_bound_backends. Qed.
+Print Assumptions C07_size_bound_backends.
+
+(* the tighter figure s/3277 of C07_size_bound is not implied by deflateBound for streams of a gigabyte (why the weaker one is stated) *)
+Theorem C07_deflate_bound_exceeds_3277_refuted : exists s, 0 <= s /\ ~ deflate_bound s <= s + s / 3277 + 40.
+Proof. exact deflate_bound_exceeds_3277_refuted. Qed.
+Print Assumptions C07_deflate_bound_exceeds_3277_refuted.
 
 Theorem C07_constant_stream_small : forall ty st, ty_ok ty -> (st = 4 \/ st = 8) -> const_stream ty st < 64.
 Proof. exact const_stream_small. Qed.
